@@ -47,6 +47,9 @@ CHECKS = {
  "C19": dict(engine="helpers", category="exploration", technique="exhaustive enumeration of helper argument alphabets (boundary values per argument, all buffer lengths/alignments, all short strings, every k^2 and k^2+-1) against independent functions; stdout of bpf_trace_printf captured in a child process",
    text="gather_bytes, memfrob (guard pages + canaries), strcmp (all pairs of strings <= 3 bytes over sign-boundary bytes, null pointers), sqrti (integer square root below 2^52, bit-exact integer emulation of round-to-f64/sqrt/truncate above), bpf_trace_printf (return value == bytes captured), rand (range, no panic) - each compared on every element of its argument product.",
    design_ref="DESIGN.md section 4 C19"),
+ "C20": dict(engine="dual", category="exploration", technique="exhaustive evaluation of the enumerated corpora of C01/C03/C06/C13-C15 (reduced tiers) and of all API call sequences of depth <= 4 on every VM kind by two builds of rbpf (default features / no default features), answers compared case by case",
+   text="rbpf-mc (std) streams every case to rbpf-mc-nostd (same transcript code linked against rbpf built with default-features = false; the JIT runs from mmap'ed caller-supplied executable memory) and compares the canonical answers: Ok(bytes)/Err for the assembler, accept/reject for the verifier, entries for the disassembler, value/Err and defined memory for interpreter and JIT, per-call results for API sequences. 3x10^6 cases in the quick tier.",
+   design_ref="DESIGN.md section 4 C20"),
  "C13": dict(engine="text", category="exploration", technique="exhaustive enumeration of mnemonics x operand shapes x boundary value/spelling alphabets against an independent encoder",
    text="Every mnemonic of the syntax x every operand shape (<=3 operands, plus 4) x boundary registers/offsets/immediates x number spellings and whitespace variants, plus every ordered pair of mnemonics and reduced triples, is assembled and compared byte-for-byte (or Err-for-Err) with an independent encoder written from the property text. Complete for the stated alphabets; values between boundaries are not covered.",
    design_ref="DESIGN.md section 4 C13"),
@@ -65,6 +68,7 @@ CHECKS = {
 }
 
 ENGINES = {
+ "dual": ("mc/src/dualeng.rs + mc/src/transcript.rs + mc-nostd/", "kind D: transcript of the same corpus from the std and the no_std build, compared case by case"),
  "calls": ("mc/src/callseng.rs", "kind A: call-graph and helper-call program generators over the reference machine / instrumented helpers"),
  "helpers": ("mc/src/helperseng.rs", "kind D: helper argument enumerator (stdout captured in a child)"),
  "api": ("mc/src/apieng.rs", "kind B: explicit-state search of a protocol model (stateright BFS to fix-point) with per-transition replay on the real VM"),
